@@ -48,7 +48,9 @@ struct Avail {
     missing: BTreeSet<&'static str>,
 }
 
-const OPS: [(&str, &str); 13] = [
+const OPS: [(&str, &str); 15] = [
+    ("vint32_enc", "C07 vint32_enc 0"),
+    ("vint32_dec", "C07 vint32_dec 80"),
     ("seekfull", "C07 seekfull basic 1 81 A"),
     ("invert", "C07 invert basic 61:0:1"),
     ("vint_enc", "C07 vint_enc 0"),
@@ -1250,9 +1252,12 @@ pub fn run(ctx: &mut Ctx) {
         "model `pos_enc` bytes = PositionSerializer bytes; model `pos_read` = PositionReader::read".into(),
         "model `blocksearch` = postings::search_block = number of elements < target".into(),
     ];
+    ctx.report.correspondence_obligations.extend(crate::c07_more::obligations());
     let av = probe(ctx);
     if let Some(case) = ctx.replay.clone() {
-        replay(ctx, &av, &case);
+        if !crate::c07_more::replay(ctx, &case) {
+            replay(ctx, &av, &case);
+        }
         return;
     }
     assert_eq!(tantivy::tokenizer::MAX_TOKEN_LEN, 65530);
@@ -1266,5 +1271,7 @@ pub fn run(ctx: &mut Ctx) {
     }
     // part (b)
     run_codecs(ctx, &av);
+    // part (c): the recorders' u32 VInt encoder, threshold segments, recycled block cursor
+    crate::c07_more::run(ctx, av.has("vint32_enc") && av.has("vint32_dec"));
     ctx.report.sample(json!({"codec": "postings", "example": "C07 enc freqs 1,5,9 2,1,7 -> 818484828187 (= PostingsSerializer bytes); C07 dec basic 3 818484 -> 1,5,9|1,1,1"}));
 }
